@@ -84,7 +84,7 @@ def gen_cases(tier, seed):
     for i in range(n // 4):
         rng = gen.rng_for("C04s", seed, i)
         base = I.cyc_edge_base(rng, wt="int", max_edges=9)
-        cases.append({"kind": "scale", "spec": I.spec_of(base), "c": rng.choice([2, 10, 0.5, 0.1, 0.25])})
+        cases.append({"kind": "scale", "spec": I.spec_of(base), "c": rng.choice([2, 10, 0.5, 0.1, 0.25, 1e4, 1e6])})
     return cases
 
 
@@ -202,7 +202,7 @@ def run_scale(case, viol, obs):
     desc = f"edges={[(u, v, d.get('flow')) for u, v, d in G.edges(data=True)]} factor={c}"
     if out[0][:2] != out[1][:2]:
         # one mechanism: per-edge multiplicity caps are taken from the (float) flow values, so shrinking the flows shrinks the caps
-        sig = "C04/scale-changes-result" + ("/shrinking-factor" if c < 1 else "/growing-factor")
+        sig = "C04/scale-changes-result" + ("/shrinking-factor" if c < 1 else ("/growing-factor" if c <= 100 else "/factor>=1e4-numerical-range"))
         viol.append({"sig": sig, "msg": f"float run on f: solved={out[0][0]} walks={out[0][1]} exc={out[0][2]}; on {c}*f: solved={out[1][0]} walks={out[1][1]} exc={out[1][2]}; {desc}"})
     return [], hashlib.sha1(desc.encode()).hexdigest()[:14], True, {"scale": c, "edges": [(u, v, d.get("flow")) for u, v, d in G.edges(data=True)], "results": out}
 
